@@ -270,3 +270,14 @@ Section IrrNearest.
       rewrite (Rabs_pos_eq (y - v)) by lra. apply Rabs_le. lra.
   Qed.
 End IrrNearest.
+
+(* the guard "first grid point <= v" of the irregular-grid theorem is needed:
+   below the first point the index -1 wraps around to the LAST grid point *)
+Theorem irregular_lower_below_first_refuted (erfR : R -> R) :
+  irr_lower (RNum erfR) [1; 2] 0 = Ok 2.
+Proof.
+  rewrite irr_lower_eq. cbn [ss_right]. num_R.
+  destruct (Rleb 1 0) eqn:E1; [apply Rleb_true in E1; lra|].
+  destruct (Rleb 2 0) eqn:E2; [apply Rleb_true in E2; lra|].
+  reflexivity.
+Qed.
